@@ -65,7 +65,7 @@ def manual_scenario(obl, steps, acked, allnames, L):
     cur = good[0].st
     cur.roots['wal'] = ref(good[0].retval.fields[('Ok', 0)])
     for step in steps:
-        if step in ('sync', 'truncate'):
+        if step in ('sync', 'truncate', 'rotate'):
             rs = sc.run(cur, 'TensorWal::' + step, [cur.roots['wal']])
         else:
             rs = sc.run(cur, 'TensorWal::append', [cur.roots['wal'], ref(cur.roots[step])])
@@ -102,6 +102,8 @@ for L in LENS[:1]:
     manual_scenario('S1_synced_records_survive', ('r1', 'r2', 'sync', 'r3'), ['r1', 'r2'], ['r1', 'r2', 'r3'], L)
     manual_scenario('T1_truncate_then_continue', ('r1', 'truncate', 'r2', 'sync', 'r3'), ['r2'], ['r2', 'r3'], L)
     manual_scenario('T1_truncate_then_continue', ('r1', 'r2', 'truncate', 'r3', 'sync', 'r4'), ['r3'], ['r3', 'r4'], L)
+    # the handle installed by rotate() is not in append mode: truncation must still leave the next record at offset 0
+    manual_scenario('T1_truncate_then_continue', ('r1', 'rotate', 'r2', 'truncate', 'r3', 'sync', 'r4'), ['r3'], ['r3', 'r4'], L)
 
 # ------------------------------------------------------------------ L: log-before-apply in SlabRouter::{put_durable, delete_durable}
 # The real TensorWal (file model) sits behind `self.wal`; the slabs are opaque (put/delete record that they were called).
